@@ -74,9 +74,9 @@ PROPERTIES = {
         'not_decided': ['observables served by Store::find_events are functions of the committed tables, which are proved unchanged; find_events itself is not under contract'],
     },
     'C18': {
-        'units': ['store', 'storelemmas', 'index'],
-        'sample_functions': ['Store::remove_event', 'Store::remove_by_offset', 'Store::store_event'],
-        'not_decided': ['Store::vanish (calls find_events, outside the reach of this technique)'],
+        'units': ['store', 'storelemmas', 'index', 'vanish'],
+        'sample_functions': ['Store::remove_event', 'Store::remove_by_offset', 'Store::store_event', 'Store::vanish#remove_authored', 'Store::vanish#remove_giftwraps'],
+        'not_decided': ['Store::vanish as a whole: that its two queries return exactly the author\'s events and the kind-1059 events whose p tag names the author is a statement about Store::find_events and the two filters it is given, outside the reach of this technique (C05). Under contract are its two removal loops (unit vanish, statement ranges): whatever list a query returned, the loop removes exactly the stored events reached under the listed ids -- every index entry of each, nothing else, no deletion marker -- and on an error a prefix of the list'],
     },
     'C10': {
         'units': ['store', 'storelemmas', 'index', 'keys', 'addr'],
@@ -111,3 +111,39 @@ PROPERTIES = {
                         'serializer preconditions: every string of a successfully parsed EVENT (and Tags) is proved renderable (escapable), so Event::as_json / Tags::as_json / Event::verify are total on it; likewise the tag values of a successfully parsed FILTER (Filter::as_json). Values built from parts or read from stored bytes carry no such guarantee: json_escape panics on a code point above U+10FFFF (only reachable from invalid UTF-8 given through from_parts)'],
     },
 }
+
+
+def _close_units():
+    """A modular proof uses a callee through its contract only.  A property's check therefore also runs the unit in
+    which the body of each such callee is proved: the unit lists above are closed under `standin -> unit that owns the
+    body` (units/*.unit), to a fixpoint.  Functions whose body is in no unit stay assumptions (listed in the evidence)."""
+    import os
+    here = os.path.dirname(os.path.dirname(os.path.abspath(__file__)))
+    bodies, standins = {}, {}
+    for f in sorted(os.listdir(os.path.join(here, 'units'))):
+        if not f.endswith('.unit'):
+            continue
+        u = f[:-5]
+        for l in open(os.path.join(here, 'units', f)):
+            p = l.split()
+            if len(p) >= 3 and p[0] == 'body':
+                bodies.setdefault((p[1], p[2]), []).append(u)
+            elif len(p) >= 3 and p[0] == 'standin':
+                standins.setdefault(u, []).append((p[1], p[2]))
+    for pid, P in PROPERTIES.items():
+        units = list(P['units'])
+        added = []
+        changed = True
+        while changed:
+            changed = False
+            for u in list(units):
+                for s in standins.get(u, ()):
+                    owners = bodies.get(s)
+                    if owners and not any(o in units for o in owners):
+                        units.append(owners[0]); added.append(owners[0]); changed = True
+        P['declared_units'] = list(P['units'])
+        P['closure_units'] = added
+        P['units'] = units
+
+
+_close_units()
